@@ -71,6 +71,14 @@ Theorem C09_lock_wait : forall c s i k,
 Proof. exact CallLifeProofs.lock_wait. Qed.
 Print Assumptions C09_lock_wait.
 
+(* the only other user of connLock, the sender goroutine's idle check, takes and releases it within its step: it closes
+   the idle connection and changes nothing else (the next call dials again, C09_returns_partial covers it) *)
+Theorem C09_idle_close_inert : forall c s s', step c s LIdleClose = Some s' ->
+  lock s = None /\ lock s' = None /\ conn_open s' = false /\ calls s' = calls s /\ queueLen s' = queueLen s /\
+  invokeNum s' = invokeNum s /\ resp s' = resp s /\ sendq s' = sendq s /\ wire s' = wire s /\ now s' = now s.
+Proof. exact CallLifeProofs.idle_close_inert. Qed.
+Print Assumptions C09_idle_close_inert.
+
 (* the bounds above are not vacuous: the model never blocks the clock for good (finitely many local steps, no tick, lead
    to a state in which the clock can tick) *)
 Theorem C09_no_timelock : forall c s, exists ls s',
